@@ -270,7 +270,7 @@ func (C13) Run(c core.Case, ctx *core.Ctx) []core.Violation {
 		}
 		switch {
 		case !res.Returned:
-			ctx.St.Inc("cross_c06_panic_or_divergence")
+			out = append(out, core.Violation{Class: res.PanicClass, Site: res.PanicSite, Detail: "a hopeless parameter must yield the unsatisfied-argument error, but the call did not return: " + trunc(res.PanicDetail)})
 		case res.ErrKind != "unsatisfied":
 			msg := "<nil>"
 			if res.Err != nil {
